@@ -182,3 +182,34 @@ func returnsNilError(info *types.Info, ret *ast.ReturnStmt) bool {
 	}
 	return true
 }
+
+// reachesNode: some path from just after the node containing `from` reaches a node satisfying pred.
+func reachesNode(fg *fcfg, from token.Pos, pred func(n ast.Node) bool) bool {
+	b0, i0 := locate(fg.g, from)
+	if b0 == nil {
+		return false
+	}
+	seen := map[*cfg.Block]bool{}
+	var walk func(b *cfg.Block, start int) bool
+	walk = func(b *cfg.Block, start int) bool {
+		for i := start; i < len(b.Nodes); i++ {
+			if pred(b.Nodes[i]) {
+				return true
+			}
+			if _, ok := b.Nodes[i].(*ast.ReturnStmt); ok {
+				return false
+			}
+		}
+		for _, s := range b.Succs {
+			if seen[s] {
+				continue
+			}
+			seen[s] = true
+			if walk(s, 0) {
+				return true
+			}
+		}
+		return false
+	}
+	return walk(b0, i0+1)
+}
